@@ -308,6 +308,107 @@ func writeRetryCase(r *Recorder, payloadLen, cut int, mode string) {
 	r.Case(name, true, "write-retry/"+mode)
 }
 
+// chunkedWriteResumeCase: one Write of more than a record on the TCP variant, the transport times
+// out once after `cut` wire bytes. The application follows the documented protocol: it advances by
+// the count Write reported, calls Flush until it succeeds (adding its counts), then writes the rest.
+// The reader must get exactly the message. Returns false when the case could not be judged.
+func chunkedWriteResumeCase(r *Recorder, pid string, total, cut int) {
+	cli, srv, cc, sc := quickPair()
+	name := fmt.Sprintf("chunked-write-resume:len=%d:cut=%d", total, cut)
+	if cli.Err != nil || srv.Err != nil {
+		r.Violate(pid+"/setup", fmt.Sprint(cli.Err, srv.Err), name)
+		return
+	}
+	w := mailbox.VNewNoiseConn(cc, cli.Machine)
+	sent, tripped := 0, false
+	cc.accept = func(n int) (int, error) {
+		if !tripped && sent+n > cut {
+			tripped = true
+			k := cut - sent
+			sent += k
+			return k, errShortWrite
+		}
+		sent += n
+		return n, nil
+	}
+	data := patterned(total, 33)
+	// the reader drains concurrently (the in-memory pipe is unbounded, but keep it honest)
+	var got []byte
+	done := make(chan struct{})
+	go func() {
+		defer close(done)
+		for len(got) < total+70000 {
+			m, err := srv.Machine.ReadMessage(sc)
+			if err != nil {
+				return
+			}
+			got = append(got, m...)
+		}
+	}()
+	told := 0
+	var steps []string
+	for guard := 0; told < len(data) && guard < 20; guard++ {
+		n, err := w.Write(data[told:])
+		told += n
+		steps = append(steps, fmt.Sprintf("Write=%d,%v", n, err))
+		for tries := 0; err != nil && tries < 8; tries++ {
+			n, err = w.Flush()
+			told += n
+			steps = append(steps, fmt.Sprintf("Flush=%d,%v", n, err))
+		}
+		if err != nil {
+			break
+		}
+	}
+	cc.wr.close()
+	<-done
+	if told > len(data) {
+		told = len(data)
+	}
+	if !bytes.Equal(got, data[:told]) {
+		r.Violate(pid+"/write-retry-duplicates-or-loses", fmt.Sprintf("one Write of %d bytes on the TCP variant, the transport timed out once after %d wire bytes; the application resumed as documented %v: it was told %d bytes were written in total, the reader got %d bytes",
+			total, cut, steps, told, len(got)), name)
+	}
+	r.Case(name, true, "chunked-write-resume")
+}
+
+// flushInterleavedReadCase: a record whose Flush timed out inside the 18 byte header; before the
+// Flush is resumed the same machine reads a record from its peer (full duplex). The resumed Flush
+// must complete the record that was started.
+func flushInterleavedReadCase(r *Recorder, cut, payloadLen int) {
+	cli, srv, _, _ := quickPair()
+	name := fmt.Sprintf("flush-interleaved-read:cut=%d:len=%d", cut, payloadLen)
+	if cli.Err != nil || srv.Err != nil {
+		r.Violate("C16/setup", fmt.Sprint(cli.Err, srv.Err), name)
+		return
+	}
+	a, b := cli.Machine, srv.Machine
+	p := patterned(payloadLen, 41)
+	bw := &budgetWriter{budgets: []int{cut}}
+	a.WriteMessage(p)
+	a.Flush(bw) // times out after `cut` wire bytes
+	// meanwhile a record from the peer is read on the same machine
+	back := patterned(19, 43)
+	bw2 := &budgetWriter{}
+	b.WriteMessage(back)
+	b.Flush(bw2)
+	gotBack, errBack := a.ReadMessage(bytes.NewReader(bw2.out))
+	for i := 0; i < 4; i++ {
+		if _, err := a.Flush(bw); err == nil {
+			break
+		}
+	}
+	got, err := b.ReadMessage(bytes.NewReader(bw.out))
+	switch {
+	case errBack != nil || !bytes.Equal(gotBack, back):
+		r.Violate("C16/read-disturbed-by-pending-write", fmt.Sprintf("a record read while a write was pending (cut %d): %v", cut, errBack), name)
+	case err != nil || !bytes.Equal(got, p):
+		r.Violate("C16/flush-resume-corrupted", fmt.Sprintf("Flush timed out after %d of %d wire bytes, a record from the peer was read on the same machine, the Flush was resumed: the peer cannot read the record that was started: %v",
+			cut, 18+payloadLen+16, err), name)
+	}
+	r.Case(name, true, "flush-interleaved-read")
+}
+
 func TestC16(t *testing.T) {
 	r := NewRecorder(t, "C16")
 	defer r.Close(t)
@@ -371,6 +472,14 @@ func TestC16(t *testing.T) {
 				writeRetryCase(r, l, cut, mode)
 			}
 		}
+	}
+	// one Write larger than a record, a timeout inside a chunk, resumed as documented
+	for _, tc := range [][2]int{{70000, 65535 + 34 + 18 + 1000}, {70000, 30000}, {150000, 2*(65535+34) + 18 + 7}, {65536, 65535 + 34 + 18}} {
+		chunkedWriteResumeCase(r, "C16", tc[0], tc[1])
+	}
+	// a Flush interrupted inside the header, a read on the same machine, the Flush resumed
+	for _, cut := range []int{0, 1, 9, 17, 18, 25} {
+		flushInterleavedReadCase(r, cut, 40)
 	}
 	// the last act of the handshake and the first record in one Read
 	for _, cfg := range [][3]int{{0, 0, 0}, {1, 1, 0}, {2, 2, 0}, {0, 2, 0}, {2, 2, 1}} {
